@@ -130,7 +130,16 @@ def build_plan(choice: Choice, tier: str, family: str):
     p["begin_raises"] = None
     p["functor_raises"] = None
     p["begin_pause"] = d(3, "begin.pause") == 2
+    p["end_pause"] = 0
+    p["plain_quota"] = None
     if family == "lifecycle":
+        p["end_pause"] = d(4, "end.pause")      # 0,1 none; 2 yield; 3 defer (a slow end())
+        if not p["factory"] and d(3, "plain.quota") == 2:
+            # a quota on the workers of a plain FunctorPool (nobody replaces them): enough capacity for all chunks
+            # and an unbounded work queue, so that the stop orders of __exit__ always fit
+            chunks = sum(-(-c["n"] // c["chunk"]) for c in calls)
+            p["plain_quota"] = max(1, -(-chunks // p["workers"])) + d(2, "plain.quota.extra")
+            p["wq_max"] = None
         fk = d(5, "fault.kind")
         if fk == 3 and p["workers"] >= 2:
             p["begin_raises"] = d(p["workers"], "fault.begin.wid")
@@ -140,6 +149,8 @@ def build_plan(choice: Choice, tier: str, family: str):
                 p["functor_raises"] = list(tot[d(len(tot), "fault.functor.item")])
         if p["begin_raises"] is None and p["functor_raises"] is None:
             p["until_ready"] = d(4, "until_ready")  # 0 never, 1 at start, 2 between calls, 3 both
+        else:
+            p["plain_quota"] = None     # a dead worker would take its share of the capacity with it
     return p
 
 
@@ -191,6 +202,12 @@ def scenario(k: Kernel, plan, obs):
 
         def end(self):
             rec("end", self.wid)
+            if plan["end_pause"] == 2:
+                k.switch("end.pause")
+            elif plan["end_pause"] == 3:
+                k.fault("slow-end")
+                k.defer("end.defer")
+            rec("end_done", self.wid)
 
     Worker = type("SimWorker", (WorkerBase, ctx.Process), {})
 
@@ -202,7 +219,8 @@ def scenario(k: Kernel, plan, obs):
     if plan["factory"]:
         pool = FactoryFunctorPool(plan["workers"], Factory(), **kw)
     else:
-        pool = FunctorPool([Worker(math.inf) for _ in range(plan["workers"])], **kw)
+        q = plan["plain_quota"] if plan.get("plain_quota") else math.inf
+        pool = FunctorPool([Worker(q) for _ in range(plan["workers"])], **kw)
     obs["pool"] = pool
 
     def data_iter(c, call):
@@ -388,7 +406,8 @@ def check_lifecycle(plan, obs, k, complete):
                     out.append({"class": "lifecycle", "site": "until_all_ready-early",
                                 "message": f"until_all_ready() returned at step {step} before begin() of {n} completed"})
     # quota: chunks taken from the work queue per worker process
-    if plan["quota"] != math.inf:
+    quota = plan["quota"] if plan["quota"] != math.inf else (plan.get("plain_quota") or math.inf)
+    if quota != math.inf:
         taken = {}
         for m in obs["ctx"].managers:
             for q in m.objects:
@@ -397,10 +416,9 @@ def check_lifecycle(plan, obs, k, complete):
                         if item is not None and name.startswith("worker") and is_work_item(item):
                             taken[name] = taken.get(name, 0) + 1
         for name, n in taken.items():
-            if n > plan["quota"]:
+            if n > quota:
                 out.append({"class": "lifecycle", "site": "quota-exceeded",
-                            "message": f"{name} took {n} chunks with quota {plan['quota']}"})
-        items_by = {}
+                            "message": f"{name} took {n} chunks with quota {quota}"})
     return out
 
 
